@@ -91,6 +91,20 @@ func (s *Translator) buildMultiPartQuery(singlePartQuery *cypher.SinglePartQuery
 			nextCTE.Query.Body = inlineSelect
 		}
 
+		// A WITH clause may carry its own ORDER BY, SKIP and LIMIT. They apply to the rows the WITH
+		// projects, so they belong to the query of the nested CTE.
+		if part.Skip != nil {
+			nextCTE.Query.Offset = part.Skip
+		}
+
+		if part.Limit != nil {
+			nextCTE.Query.Limit = part.Limit
+		}
+
+		if len(part.SortItems) > 0 {
+			nextCTE.Query.OrderBy = part.SortItems
+		}
+
 		multipartCTEChain = append(multipartCTEChain, nextCTE)
 	}
 
